@@ -164,6 +164,11 @@ func skipCopyPinnedBatch() *k2Batch {
 			kb.Order = append(kb.Order, name)
 		}
 	}
+	// a VARIADIC method over a basic slice next to a sibling that converts a field of that slice type by calling it with a
+	// spread argument: the callee sees the caller's slice, so it has to copy like every other slice conversion
+	types.WriteString("type NvIn struct {\n\tIDs  []int64\n\tTags []string\n}\ntype NvOut struct {\n\tIDs  []int64\n\tTags []string\n}\n")
+	kb.Convs["NvC"] = "// goverter:converter\ntype NvC interface {\n\tIDs(ids ...int64) []int64\n\tTags(source ...string) []string\n\tConvert(source NvIn) NvOut\n}\n\n"
+	kb.Order = append(kb.Order, "NvC")
 	kb.Types = types.String()
 	return kb
 }
